@@ -58,26 +58,17 @@ theorem update_const_other (ρ : Valuation) (name : String) (T : Ty) (c k : Nat)
   simp only [Valuation.update]
   rw [if_neg h]
 
-/-- core: with the constant interpreted by `defValue`, the equation holds for all variables -/
-theorem defValue_sat (name : String) (T : Ty) (v : View) (hv : viewOK name T v = true)
-    (hfresh : freshName name T = true) (M : Model) (ρ : Valuation) (hρ : Admissible M ρ) :
-    defValue M ρ v < M.size T ∧
-      Sat M (ρ.update 2 name T (defValue M ρ v)) ⟨[], mkProp name T v⟩ := by
-  obtain ⟨hT, _, hvars, hself, htyped⟩ := viewOK_parts hv
+/-- core: if a valuation gives the new constant the value `defValue` and agrees with `ρ` on the
+constants of the right-hand side, the equation holds under it -/
+theorem defValue_holds (name : String) (T : Ty) (v : View) (hv : viewOK name T v = true)
+    (hfresh : freshName name T = true) (M : Model) (ρ : Valuation) (hρ : Admissible M ρ)
+    (ρ2 : Valuation) (hρ2 : Admissible M ρ2) (hcval : ρ2 2 name T = defValue M ρ v)
+    (hold : ∀ a ∈ atoms v.rhs, a.1 = 2 → ρ2 2 a.2.1 a.2.2 = ρ 2 a.2.1 a.2.2) :
+    holds M ρ2 (mkProp name T v) := by
+  obtain ⟨hT, _, hvars, _, htyped⟩ := viewOK_parts hv
   have hF : ∀ vs, EnvOK M (v.args.map (·.2)) vs →
       sem M (argVal ρ v.args vs) [] [] v.rhs < M.size v.B :=
     fun vs hvs => sem_lt M _ (argVal_admissible hρ v.args vs hvs) [] [] (EnvOK.nil M) v.rhs v.B htyped
-  have hc : defValue M ρ v < M.size T := by
-    rw [hT]
-    exact defCode_lt M _ _ _ hF
-  refine ⟨hc, ?_⟩
-  intro ρ2 hρ2 hagree _
-  -- ρ2 carries the new constant already; name it
-  have hcval : ρ2 2 name T = defValue M ρ v := by rw [hagree, update_const_self]
-  have hold : ∀ n S, ¬ (n = name ∧ S = T) → ρ2 2 n S = ρ 2 n S := by
-    intro n S hne
-    rw [hagree, update_const_other]
-    exact fun h => hne ⟨h.2.1, h.2.2⟩
   have hl := lhs_typed name T v hT
   have hsl := sem_lt M ρ2 hρ2 [] [] (EnvOK.nil M) _ _ hl
   have hsr := sem_lt M ρ2 hρ2 [] [] (EnvOK.nil M) _ _ htyped
@@ -101,21 +92,51 @@ theorem defValue_sat (name : String) (T : Ty) (v : View) (hv : viewOK name T v =
   -- right-hand side: only the argument variables and old constants occur
   apply sem_congr
   intro a ha
-  obtain ⟨k, n, S⟩ := a
   have h1 := List.all_eq_true.1 hvars _ ha
-  have h2 := List.all_eq_true.1 hself _ ha
+  have h0 := hold a ha
+  obtain ⟨k, n, S⟩ := a
   simp only [Bool.or_eq_true, Bool.and_eq_true, beq_iff_eq, List.contains_eq_mem, decide_eq_true_eq] at h1
   rcases h1 with hk | ⟨hk, hmem⟩
-  · -- a constant: not the one being defined
-    subst hk
-    have hne : ¬ (n = name ∧ S = T) := by
-      rintro ⟨rfl, rfl⟩
-      simp [apart_irrefl] at h2
+  · subst hk
     show argVal ρ v.args _ 2 n S = ρ2 2 n S
-    rw [argVal_other _ _ _ _ _ _ (by decide), hold n S hne]
+    rw [argVal_other _ _ _ _ _ _ (by decide), h0 rfl]
   · subst hk
     show argVal ρ v.args _ 1 n S = ρ2 1 n S
     exact argVal_mem ρ ρ2 v.args n S hmem
+
+theorem defValue_lt (name : String) (T : Ty) (v : View) (hv : viewOK name T v = true)
+    (M : Model) (ρ : Valuation) (hρ : Admissible M ρ) : defValue M ρ v < M.size T := by
+  obtain ⟨hT, _, _, _, htyped⟩ := viewOK_parts hv
+  rw [hT]
+  exact defCode_lt M _ _ _ (fun vs hvs =>
+    sem_lt M _ (argVal_admissible hρ v.args vs hvs) [] [] (EnvOK.nil M) v.rhs v.B htyped)
+
+/-- the constant being defined does not occur on its right-hand side -/
+theorem self_not_in_rhs {name : String} {T : Ty} {v : View} (hv : viewOK name T v = true) :
+    (2, name, T) ∉ atoms v.rhs := by
+  obtain ⟨_, _, _, hself, _⟩ := viewOK_parts hv
+  intro hm
+  have := List.all_eq_true.1 hself _ hm
+  simp [apart_irrefl] at this
+
+/-- with the constant interpreted by `defValue`, the equation holds for all variables -/
+theorem defValue_sat (name : String) (T : Ty) (v : View) (hv : viewOK name T v = true)
+    (hfresh : freshName name T = true) (M : Model) (ρ : Valuation) (hρ : Admissible M ρ) :
+    defValue M ρ v < M.size T ∧
+      Sat M (ρ.update 2 name T (defValue M ρ v)) ⟨[], mkProp name T v⟩ := by
+  refine ⟨defValue_lt name T v hv M ρ hρ, ?_⟩
+  intro ρ2 hρ2 hagree _
+  apply defValue_holds name T v hv hfresh M ρ hρ ρ2 hρ2
+  · rw [hagree, update_const_self]
+  · intro a ha hk
+    rw [hagree, update_const_other]
+    rintro ⟨_, hn, hS⟩
+    apply self_not_in_rhs hv
+    obtain ⟨k, n, S⟩ := a
+    cases hk
+    cases hn
+    cases hS
+    exact ha
 
 /-! ### the property -/
 
@@ -181,6 +202,54 @@ theorem def_keeps_consistency (name : String) (T : Ty) (prop : Term) (h : defOK 
       Sat M (ρ.update 2 name T c) ⟨[], prop⟩ := by
   obtain ⟨c, hc, hdef⟩ := def_conservative name T prop h hfresh M ρ hρ
   exact ⟨c, hc, fun th hth => Sat_update_of_not_occurs M ρ hρ name T c th (hnew th hth) (hsat th hth), hdef⟩
+
+/-! ### all type instances at once -/
+
+/-- A family of accepted definitions of the same constant name at types `Ts i` (the type
+instances of one polymorphic definition) has a simultaneous interpretation, provided the instance
+is determined by its type (which is what "type variables of the right-hand side occur in the type
+of the constant" gives) and no right-hand side mentions the constant at any of the types being
+defined (which is what `is_apart` gives).  Only the values at `(name, Ts i)` change. -/
+theorem def_conservative_family {ι : Type} (name : String) (Ts : ι → Ty) (vs : ι → View)
+    (hok : ∀ i, viewOK name (Ts i) (vs i) = true) (hfresh : ∀ i, freshName name (Ts i) = true)
+    (hcoh : ∀ i j, Ts i = Ts j → vs i = vs j)
+    (hcross : ∀ i j, (2, name, Ts j) ∉ atoms (vs i).rhs)
+    (M : Model) (ρ : Valuation) (hρ : Admissible M ρ) :
+    ∃ ρ', Admissible M ρ' ∧
+      (∀ k n S, ¬ (k = 2 ∧ n = name ∧ ∃ i, S = Ts i) → ρ' k n S = ρ k n S) ∧
+      ∀ i, Sat M ρ' ⟨[], mkProp name (Ts i) (vs i)⟩ := by
+  classical
+  let ρ' : Valuation := fun k n S =>
+    if h : k = 2 ∧ n = name ∧ ∃ i, S = Ts i then defValue M ρ (vs (Classical.choose h.2.2)) else ρ k n S
+  have hpos : ∀ i, ρ' 2 name (Ts i) = defValue M ρ (vs i) := by
+    intro i
+    have h : (2 : Nat) = 2 ∧ name = name ∧ ∃ j, Ts i = Ts j := ⟨rfl, rfl, i, rfl⟩
+    show (if h : (2 : Nat) = 2 ∧ name = name ∧ ∃ j, Ts i = Ts j then _ else _) = _
+    rw [dif_pos h]
+    have hc := Classical.choose_spec h.2.2
+    rw [hcoh _ _ hc.symm]
+  have hneg : ∀ k n S, ¬ (k = 2 ∧ n = name ∧ ∃ i, S = Ts i) → ρ' k n S = ρ k n S := by
+    intro k n S h
+    show (if h : k = 2 ∧ n = name ∧ ∃ i, S = Ts i then _ else _) = _
+    rw [dif_neg h]
+  refine ⟨ρ', ?_, hneg, ?_⟩
+  · intro k n S
+    by_cases h : k = 2 ∧ n = name ∧ ∃ i, S = Ts i
+    · obtain ⟨rfl, rfl, i, rfl⟩ := h
+      rw [hpos i]
+      exact defValue_lt n (Ts i) (vs i) (hok i) M ρ hρ
+    · rw [hneg k n S h]
+      exact hρ k n S
+  · intro i ρ2 hρ2 hagree _
+    apply defValue_holds name (Ts i) (vs i) (hok i) (hfresh i) M ρ hρ ρ2 hρ2
+    · rw [hagree, hpos i]
+    · intro a ha hk
+      obtain ⟨k, n, S⟩ := a
+      cases hk
+      rw [hagree]
+      apply hneg
+      rintro ⟨_, rfl, j, rfl⟩
+      exact hcross i j ha
 
 /-! ### the equation of an accepted definition is well-typed -/
 
